@@ -49,6 +49,7 @@ ALGOS = list(FIT_SAMPLERS) + list(PERSONALIZE) + ["simulate"]
 LOG_KEYS = ("print_periodicity", "save_periodicity", "plot_periodicity", "plot_patient_periodicity", "plot_sourcewise",
             "nb_of_patients_to_plot")
 PATH_MODES = ("absent", "fresh", "existing_overwrite", "existing_empty", "existing_nonempty")
+# + "relative_chdir" (settings route only): a relative folder name, and another working directory when the run starts
 
 PRIORS = ("nothing", "rng1", "rng7", "fit_other", "personalize_other", "dtype_flip", "same_case", "same_other_seed",
           "same_settings", "custom_options")
@@ -173,7 +174,12 @@ EXTRA_INDIVIDUALS = {
     "f": [(64.0, [0.20, 0.15, 0.25, 0.2]), (68.0, [0.32, 0.28, 0.33, 0.3]), (71.5, [0.45, 0.35, 0.41, 0.4])],
     "g": [(73.0, [0.50, 0.42, 0.55, 0.5]), (77.0, [0.62, 0.58, 0.66, 0.6])],
 }
-EXTRA_EVENTS = {"f": (74.0, 0), "g": (79.5, 1)}
+EXTRA_EVENTS = {"f": (74.0, 0), "g": (79.5, 1), "h": (70.0, 1), "i": (88.0, 0), "j": (81.0, 1)}
+EXTRA_INDIVIDUALS.update({
+    "h": [(59.0, [0.10, 0.12, 0.20, 0.1]), (63.5, [0.22, 0.20, 0.27, 0.2]), (67.0, [0.31, 0.33, 0.36, 0.3])],
+    "i": [(78.0, [0.66, 0.52, 0.70, 0.6]), (82.5, [0.79, 0.68, 0.81, 0.7])],
+    "j": [(69.0, [0.35, 0.30, 0.40, 0.3]), (72.0, [0.44, 0.41, 0.52, 0.4]), (76.5, [0.58, 0.55, 0.63, 0.5])],
+})
 
 
 def make_model_and_data(model_name, variant=0, cohort=5):
@@ -183,11 +189,12 @@ def make_model_and_data(model_name, variant=0, cohort=5):
     spec = dict(MODELS[model_name] if model_name in MODELS else EXTRA_MODELS[model_name], variant=variant)
     if cohort == 5:
         return M.build_model(spec), M.cohort_dataset(COHORT, spec)
-    assert cohort == 7
+    assert cohort in (7, 10)
     individuals = dict(M.INDIVIDUALS, **EXTRA_INDIVIDUALS)
     events = dict(M.EVENTS, **EXTRA_EVENTS)
     joint = spec["kind"] == "joint"
-    rows = [(i, age, list(vals[: spec["dim"]])) for i in COHORT + ["f", "g"] for age, vals in individuals[i]]
+    more = ["f", "g"] if cohort == 7 else ["f", "g", "h", "i", "j"]
+    rows = [(i, age, list(vals[: spec["dim"]])) for i in COHORT + more for age, vals in individuals[i]]
     df = M.visits_frame(rows, [f"Y{k}" for k in range(spec["dim"])], events if joint else None)
     data = Data.from_dataframe(df, "joint") if joint else Data.from_dataframe(df)
     return M.build_model(spec), Dataset(data)
@@ -254,7 +261,7 @@ def log_kwargs(log, workdir):
             target = Path(workdir) / "_outputs"  # documented default: ./_outputs relative to the working directory
     else:
         target = Path(workdir) / "logs"
-        if mode == "fresh":
+        if mode in ("fresh", "relative_chdir"):
             pass
         elif mode in ("existing_overwrite", "existing_nonempty"):
             (target / "plots").mkdir(parents=True)
@@ -267,7 +274,9 @@ def log_kwargs(log, workdir):
             target.mkdir(parents=True)
         else:
             raise ValueError(mode)
-        kw["path"] = str(target)
+        # "relative_chdir": the folder is named relatively to the working directory in force when the settings are built; the
+        # working directory is another one by the time the algorithm runs (see `execute`)
+        kw["path"] = "logs" if mode == "relative_chdir" else str(target)
     return kw, target
 
 
@@ -345,8 +354,17 @@ def execute(algo, model_name, seed, log=None, route="settings", variant=0, share
                         if shared is not None:
                             shared["settings"] = settings
                     call_kw = dict(algorithm_settings=settings)
+                elif route == "file":
+                    # the settings come from a JSON file written by AlgorithmSettings.save (logging options are not stored there)
+                    spath = str(Path(workdir) / "settings.json")
+                    AlgorithmSettings(name, **kw).save(spath)
+                    call_kw = dict(algorithm_settings_path=spath)
                 else:  # keyword route of the public fit/personalize/simulate (settings are built inside the call)
                     call_kw = dict(algorithm=name, **kw, **lkw)
+                if log is not None and log.get("path") == "relative_chdir":
+                    elsewhere = Path(workdir) / "elsewhere"
+                    elsewhere.mkdir()
+                    os.chdir(elsewhere)
             except LeaspyAlgoInputError as e:
                 return {"kind": "refused", "stage": stage, "exc": "LeaspyAlgoInputError", "msg": str(e)[:200], "files": []}
             except Exception as e:
